@@ -866,6 +866,11 @@ func report(id, tier string, seed int64, meta *propMeta, results, raceResults []
 				missing = append(missing, name)
 			}
 		}
+		if instrEvals >= 1000 && faults["park_at_inserted_yield_point"] == 0 {
+			// the build with inserted yield points ran but never parked at one: it explored
+			// nothing the plain build does not
+			missing = append(missing, "park_at_inserted_yield_point")
+		}
 		if len(missing) > 0 {
 			fmt.Fprintf(os.Stderr, "COVERAGE SELF-CHECK FAILED for %s: never reached %v - the generator no longer produces what the check is built around\n", id, missing)
 			return 2
